@@ -51,7 +51,11 @@ func ResetFatalEvents() {
 func InitProcess(scratch string) {
 	initOnce.Do(func() {
 		os.MkdirAll(scratch, 0o755)
-		logging.Init(scratch, "verif", "error", 1, true)
+		level := "error"
+		if l := os.Getenv("VERIF_LOGLEVEL"); l != "" {
+			level = l // debugging aid: the wallet's own log at another level (kept with VERIF_KEEP=1)
+		}
+		logging.Init(scratch, "verif", level, 1, true)
 		keystore.DefaultScryptOptions = keystore.ScryptOptions{N: 16, R: 8, P: 1}
 		logrus.RegisterExitHandler(func() {
 			buf := make([]byte, 1<<16)
